@@ -233,4 +233,140 @@ theorem coldFold_sub (cold acc : List Cand) (x : Cand) (hx : x ∈ coldFold acc 
         simp only [hasId, List.any_cons, Bool.or_eq_false_iff] at this
         exact this.2
 
+/-! ### the widening scan -/
+
+theorem canon_append (a b : List (Cand × V)) : canon (a ++ b) = canon a ++ canon b := by
+  simp [canon]
+
+theorem canon_keepLive (l : List (Cand × V)) : canon (keepLive l) = canon l := by
+  induction l with
+  | nil => rfl
+  | cons x rest ih =>
+    obtain ⟨c, v⟩ := x
+    cases v <;> simp_all [canon, keepLive, List.filter_cons]
+
+theorem canon_split (all : List (Cand × V)) (n : Nat) :
+    canon all = canon (all.take n) ++ canon (all.drop n) := by
+  rw [← canon_append, List.take_append_drop]
+
+theorem keepLive_length_le (l : List (Cand × V)) : (keepLive l).length ≤ l.length :=
+  List.length_filter_le _ _
+
+theorem canon_length_le (l : List (Cand × V)) : (canon l).length ≤ l.length := by
+  simp only [canon, List.length_map]
+  exact List.length_filter_le _ _
+
+/-- **The widening scan returns the first `limit` canonical candidates of the whole tier**, however
+    many stale mirrors sit in front of them. -/
+theorem widenF_spec (fuel : Nat) (all : List (Cand × V)) (fetch limit : Nat)
+    (hlf : limit ≤ fetch) (hfuel : all.length < fuel + fetch) :
+    (widenF (fuel + 1) all fetch limit).2 = (canon all).take limit := by
+  induction fuel generalizing all fetch with
+  | zero =>
+    have hlt : (all.take fetch).length < fetch := by rw [List.length_take]; omega
+    have hall : all.take fetch = all := List.take_of_length_le (by omega)
+    have hlt' : all.length < fetch := by omega
+    simp [widenF, hall, hlt']
+  | succ fuel ih =>
+    rw [widenF]
+    split
+    · rename_i hc
+      simp only [Bool.or_eq_true, decide_eq_true_eq] at hc
+      rcases hc with hc | hc
+      · have hall : all.take fetch = all :=
+          List.take_of_length_le (by rw [List.length_take] at hc; omega)
+        rw [hall]
+      · show (canon (all.take fetch)).take limit = (canon all).take limit
+        rw [canon_split all fetch, List.take_append_of_le_length hc]
+    · rename_i hc
+      simp only [Bool.or_eq_true, decide_eq_true_eq, not_or, Nat.not_lt, Nat.not_le] at hc
+      have hraw : (all.take fetch).length = fetch := by
+        have := List.length_take_le fetch all
+        omega
+      have hk := canon_length_le (all.take fetch)
+      rw [ih]
+      · rw [canon_append, canon_keepLive, ← canon_split]
+      · omega
+      · have h1 := keepLive_length_le (all.take fetch)
+        have h2 : (all.drop fetch).length = all.length - fetch := List.length_drop
+        rw [List.length_append]
+        rw [List.length_take] at hraw
+        omega
+
+/-- a duplicate-free list whose members all lie in `S` and satisfy `p` is no longer than the
+    number of members of `S` satisfying `p` -/
+theorem length_le_countP (l S : List Cand) (p : Cand → Bool) (hn : l.Nodup)
+    (h : ∀ a ∈ l, a ∈ S ∧ p a = true) : l.length ≤ S.countP p := by
+  induction l generalizing S with
+  | nil => simp
+  | cons a t ih =>
+    have ha := h a (List.mem_cons_self ..)
+    have hp : S.Perm (a :: S.erase a) := List.perm_cons_erase ha.1
+    rw [hp.countP_eq, List.countP_cons_of_pos ha.2]
+    have hnt := List.nodup_cons.mp hn
+    have := ih (S.erase a) hnt.2 (fun b hb => by
+      have hb' := h b (List.mem_cons_of_mem _ hb)
+      refine ⟨?_, hb'.2⟩
+      have hne : b ≠ a := fun e => hnt.1 (e ▸ hb)
+      exact (List.mem_erase_of_ne hne).mpr hb'.1)
+    simp only [List.length_cons]
+    omega
+
+/-- in a sorted list with at least `k` members no farther than `x`, the first `k` are all no
+    farther than `x` -/
+theorem take_le_of_countP (S : List Cand) (hs : Sorted S) (x k : Nat)
+    (hc : k ≤ S.countP (fun c => decide (c.key ≤ x))) :
+    (S.take k).length = k ∧ ∀ r ∈ S.take k, r.key ≤ x := by
+  induction S generalizing k with
+  | nil =>
+    simp only [List.countP_nil, Nat.le_zero_eq] at hc
+    subst hc
+    simp
+  | cons a t ih =>
+    cases k with
+    | zero => simp
+    | succ k =>
+      unfold Sorted at hs
+      rw [List.pairwise_cons] at hs
+      by_cases ha : a.key ≤ x
+      · rw [List.countP_cons_of_pos (by simpa using ha)] at hc
+        obtain ⟨h1, h2⟩ := ih hs.2 k (by omega)
+        refine ⟨by simp [List.take_succ_cons, h1], ?_⟩
+        intro r hr
+        rw [List.take_succ_cons] at hr
+        rcases List.mem_cons.mp hr with rfl | hr
+        · exact ha
+        · exact h2 r hr
+      · rw [List.countP_cons_of_neg (by simpa using ha)] at hc
+        have hz : t.countP (fun c => decide (c.key ≤ x)) = 0 := by
+          rw [List.countP_eq_zero]
+          intro b hb
+          have := le_key (hs.1 b hb)
+          simp only [decide_eq_true_eq]
+          omega
+        omega
+
+
+theorem nodup_of_nodupIds (l : List Cand) (h : NodupIds l) : l.Nodup := by
+  unfold NodupIds at h
+  induction l with
+  | nil => exact List.nodup_nil
+  | cons a t ih =>
+    rw [List.map_cons, List.nodup_cons] at h
+    rw [List.nodup_cons]
+    exact ⟨fun hm => h.1 (List.mem_map.mpr ⟨a, hm, rfl⟩), ih h.2⟩
+
+theorem eq_of_id_eq (l : List Cand) (h : NodupIds l) {x c : Cand} (hx : x ∈ l) (hc : c ∈ l)
+    (hid : x.id = c.id) : x = c := by
+  unfold NodupIds at h
+  induction l with
+  | nil => cases hx
+  | cons a t ih =>
+    rw [List.map_cons, List.nodup_cons] at h
+    rcases List.mem_cons.mp hx with rfl | hx' <;> rcases List.mem_cons.mp hc with rfl | hc'
+    · rfl
+    · exact (h.1 (List.mem_map.mpr ⟨c, hc', hid.symm⟩)).elim
+    · exact (h.1 (List.mem_map.mpr ⟨x, hx', hid⟩)).elim
+    · exact ih h.2 hx' hc'
+
 end KyroModel.Knn
